@@ -39,6 +39,7 @@ type StubTxn struct {
 	Rcpt   []int
 	Data   int
 	Finals []int
+	Retry  bool // the refusal of DATA is a passing one: the transaction stays open and the next DATA gets 354
 }
 
 // runLMTPStub is a strict little LMTP server: a transaction ends with its final
@@ -48,7 +49,7 @@ func runLMTPStub(raw *SimConn, s *StubScript, h *StubHistory) {
 	rd := bufio.NewReader(raw)
 	write := func(x string) { raw.Write([]byte(x)) }
 	write("220 stub.example LMTP\r\n")
-	ti, ri, accepted := -1, 0, 0
+	ti, ri, accepted, dataTries := -1, 0, 0, 0
 	for {
 		raw.SetReadDeadline(time.Now().Add(40 * time.Minute))
 		l, err := rd.ReadString('\n')
@@ -65,7 +66,7 @@ func runLMTPStub(raw *SimConn, s *StubScript, h *StubHistory) {
 			write("250-stub.example\r\n250-PIPELINING\r\n250 ENHANCEDSTATUSCODES\r\n")
 		case strings.HasPrefix(up, "MAIL"):
 			ti++
-			ri, accepted = 0, 0
+			ri, accepted, dataTries = 0, 0, 0
 			if ti >= len(s.LMTP) {
 				write("451 4.3.0 the script has no more transactions\r\n")
 				continue
@@ -88,10 +89,12 @@ func runLMTPStub(raw *SimConn, s *StubScript, h *StubHistory) {
 				write("503 5.5.1 no recipients\r\n")
 				continue
 			}
-			if d := s.LMTP[ti].Data; d != 354 {
+			if d := s.LMTP[ti].Data; d != 354 && !(s.LMTP[ti].Retry && dataTries > 0) {
+				dataTries++
 				write(itoa(d) + " 4.3.0 not now\r\n")
 				continue
 			}
+			dataTries = 0
 			write("354 go ahead\r\n")
 			for {
 				dl, err := rd.ReadString('\n')
